@@ -44,19 +44,62 @@ Qed.
 (* ---------------------------------------------------------------- *)
 (* invariants *)
 
+(* ---------------------------------------------------------------- *)
+(* invariants *)
+
 Definition dst_ok (a : addr) : Prop := is_llu (a_ip a) || is_llm (a_ip a) = true.
+Definition pend_ok (st : state) (l : sloop) : Prop :=
+  Forall (fun ip => rt_find (routers st) ip <> None) (l_pending l).
 
 Record inv (st : state) : Prop := {
   inv_loops : Forall (fun l => dst_ok (l_dst l)) (loops st);
   inv_def : forall k, defrouter st = Some k -> rt_find (routers st) k <> None;
   inv_rt : routers st <> [] -> defrouter st <> None;
-  inv_keys : Forall (fun kr => r_ip (snd kr) = fst kr) (routers st)
+  inv_keys : Forall (fun kr => r_ip (snd kr) = fst kr) (routers st);
+  inv_pend : Forall (pend_ok st) (loops st)     (* what a loop still has to send are learned routers *)
 }.
 
 Lemma kill_dst l i : Forall (fun l => dst_ok (l_dst l)) l -> Forall (fun l => dst_ok (l_dst l)) (kill l i).
 Proof.
   revert i; induction l as [|x r IH]; intros i H; simpl; [destruct i; constructor|].
   inversion H; subst. destruct i; constructor; auto.
+Qed.
+Lemma set_pending_dst l i p : Forall (fun l => dst_ok (l_dst l)) l -> Forall (fun l => dst_ok (l_dst l)) (set_pending l i p).
+Proof.
+  revert i; induction l as [|x r IH]; intros i H; simpl; [destruct i; constructor|].
+  inversion H; subst. destruct i; constructor; auto.
+Qed.
+
+(* loops addressed by position *)
+Lemma nth_kill_eq : forall l i x, nth_error l i = Some x -> nth_error (kill l i) i = Some (mkLoop (l_dst x) false []).
+Proof. induction l as [|y r IH]; intros [|i] x H; simpl in *; try discriminate; [inversion H; reflexivity|auto]. Qed.
+Lemma nth_kill_ne : forall l i j, i <> j -> nth_error (kill l i) j = nth_error l j.
+Proof. induction l as [|y r IH]; intros [|i] [|j] H; simpl; try reflexivity; try lia. apply IH. lia. Qed.
+Lemma nth_setp_eq : forall l i p x, nth_error l i = Some x ->
+  nth_error (set_pending l i p) i = Some (mkLoop (l_dst x) (l_alive x) p).
+Proof. induction l as [|y r IH]; intros [|i] p x H; simpl in *; try discriminate; [inversion H; reflexivity|auto]. Qed.
+Lemma nth_setp_ne : forall l i j p, i <> j -> nth_error (set_pending l i p) j = nth_error l j.
+Proof. induction l as [|y r IH]; intros [|i] [|j] p H; simpl; try reflexivity; try lia. apply IH. lia. Qed.
+
+Lemma Forall_kill (P : sloop -> Prop) l i : (forall d, P (mkLoop d false [])) -> Forall P l -> Forall P (kill l i).
+Proof.
+  intros Hk. revert i; induction l as [|x r IH]; intros i H; simpl; [destruct i; constructor|].
+  inversion H; subst. destruct i; constructor; auto.
+Qed.
+Lemma Forall_setp (P : sloop -> Prop) l i p :
+  (forall x, In x l -> P x -> P (mkLoop (l_dst x) (l_alive x) p)) -> Forall P l -> Forall P (set_pending l i p).
+Proof.
+  revert i; induction l as [|x r IH]; intros i Hp H; simpl; [destruct i; constructor|].
+  inversion H; subst. destruct i; constructor; auto.
+  - apply Hp; [left; reflexivity|assumption].
+  - apply IH; auto. intros y Hy. apply Hp. right. exact Hy.
+Qed.
+
+Lemma pick_in {A} (order : list nat) (l : list A) x : In x (pick order l) -> In x l.
+Proof.
+  unfold pick. intros H. apply in_flat_map in H as [k [_ Hk]].
+  destruct (nth_error l k) as [y|] eqn:E; [|contradiction]. destruct Hk as [<-|[]].
+  eapply nth_error_In; eauto.
 Qed.
 
 Lemma all_nodes_llm : is_llm all_nodes = true.
@@ -111,59 +154,6 @@ Proof. destruct l as [|[k r0] t]; simpl; [discriminate|]. destruct (bytes_eqb k 
 Lemma router_update_ip r p o : r_ip (router_update r p o) = r_ip r.
 Proof. reflexivity. Qed.
 
-Lemma inv_init rep : inv (init rep).
-Proof. constructor; simpl; auto; try discriminate; try congruence. Qed.
-
-Lemma step_inv c st e : inv st -> inv (fst (step c st e)).
-Proof.
-  intros Hinv. pose proof Hinv as [Hl Hd Hr Hk]. destruct e as [a|a| |i|src eth p hk|q]; simpl.
-  - unfold start_hunt.
-    destruct (is4 (a_ip a)) eqn:E4; [(simpl; first [exact Hinv | constructor; assumption])|].
-    destruct (is6 (a_ip a) && negb (is_llu (a_ip a))) eqn:E6; [(simpl; first [exact Hinv | constructor; assumption])|].
-    destruct (al_has (hunt st) (a_mac a)); [(simpl; first [exact Hinv | constructor; assumption])|].
-    constructor; simpl; auto.
-    apply Forall_app; split; [assumption|]. constructor; [|constructor]. unfold dst_ok; simpl.
-    destruct (ip_valid (a_ip a)) eqn:Ev; simpl.
-    + unfold ip_valid in Ev. rewrite E4 in Ev. simpl in Ev. rewrite Ev in E6. simpl in E6.
-      apply negb_false_iff in E6. rewrite E6. reflexivity.
-    + vm_compute. reflexivity.
-  - unfold stop_hunt. destruct (ip_valid (a_ip a) && negb (is_llu (a_ip a))); (simpl; first [exact Hinv | constructor; assumption]).
-  - unfold close. destruct (closed st); (simpl; first [exact Hinv | constructor; assumption]).
-  - unfold wake. destruct (nth_error (loops st) i) as [l|]; [|(simpl; first [exact Hinv | constructor; assumption])].
-    destruct (negb (l_alive l)); [(simpl; first [exact Hinv | constructor; assumption])|].
-    destruct (negb (al_has (hunt st) (a_mac (l_dst l))) || closed st).
-    + constructor; simpl; auto. apply kill_dst. assumption.
-    + destruct (defrouter st); (simpl; first [exact Hinv | constructor; assumption]).
-  - unfold rx_ra. destruct (blen p <? 16); [(simpl; first [exact Hinv | constructor; assumption])|].
-    destruct (negb (Z.rem (repeat_ st + 1) 4 =? 0)%Z); [(simpl; first [exact Hinv | constructor; assumption])|].
-    destruct (negb hk); [(simpl; first [exact Hinv | constructor; assumption])|].
-    destruct (ra_options p) as [o|e| |]; try ((simpl; first [exact Hinv | constructor; assumption])).
-    destruct (rt_find (routers st) src) as [r|] eqn:Ef; simpl.
-    + constructor; simpl; auto.
-      * intros k Hk'. apply rt_find_set_other. auto.
-      * intros _. apply Hr. intros E. rewrite E in Ef. discriminate.
-      * assert (Hip : r_ip r = src) by (eapply rt_find_keys; eauto).
-        rewrite <- Hip at 1. rewrite <- (router_update_ip r p o). apply rt_set_keys; auto.
-    + constructor; simpl; auto.
-      * intros k Hk'. inversion Hk'; subst. rewrite rt_find_set. discriminate.
-      * intros _. discriminate.
-      * apply (rt_set_keys (routers st) (router_update (router_new (if (List.length (o_slla o) =? 6)%nat then o_slla o else eth) src) p o)); auto.
-  - exact Hinv.
-Qed.
-
-Lemma reach_inv c s0 st : inv s0 -> reach c s0 st -> inv st.
-Proof. intros H0 Hr. induction Hr; auto. apply step_inv. assumption. Qed.
-
-(* ---------------------------------------------------------------- *)
-(* C14_confined at the level of one step *)
-
-Definition forged_ok (c : config) (st : state) (n : na) : Prop :=
-  al_has (hunt st) (na_eth_dst n) = true /\
-  closed st = false /\
-  defrouter st <> None /\
-  (exists k r, rt_find (routers st) k = Some r /\ na_target n = k) /\
-  na_ip_src n = na_target n /\ na_tlla n = host_mac c /\ na_eth_src n = host_mac c /\
-  na_override n = true /\ na_solicited n = false /\ na_hop n = 255.
 
 Lemma rt_find_in l k r : In (k, r) l -> rt_find l k <> None.
 Proof.
@@ -173,30 +163,130 @@ Proof.
   - destruct (bytes_eqb k0 k); [discriminate|auto].
 Qed.
 
-Lemma step_confined c st e l :
-  inv st -> snd (step c st e) = ONAs l -> forall n, In n l -> forged_ok c st n.
+Lemma inv_init rep : inv (init rep).
+Proof. constructor; simpl; auto; try discriminate; try congruence. Qed.
+
+(* Lookup and Send touch nothing but the loop records *)
+Lemma lookup_frame st i order : let st' := fst (lookup st i order) in
+  hunt st' = hunt st /\ routers st' = routers st /\ defrouter st' = defrouter st /\ closed st' = closed st /\ repeat_ st' = repeat_ st.
 Proof.
-  intros Hinv Hs n Hn. destruct e as [a|a| |i|src eth p hk|q]; simpl in Hs.
-  - unfold start_hunt in Hs. repeat (destruct (_ : bool) in Hs; simpl in Hs; try discriminate).
-  - unfold stop_hunt in Hs. destruct (_ : bool) in Hs; discriminate.
+  unfold lookup. destruct (nth_error (loops st) i) as [l|]; [|(cbn [fst set_loops hunt routers defrouter closed repeat_]; repeat split; reflexivity)].
+  destruct (negb (l_alive l)); [(cbn [fst set_loops hunt routers defrouter closed repeat_]; repeat split; reflexivity)|]. destruct (l_pending l); [|(cbn [fst set_loops hunt routers defrouter closed repeat_]; repeat split; reflexivity)].
+  destruct (negb (al_has (hunt st) (a_mac (l_dst l))) || closed st); [(cbn [fst set_loops hunt routers defrouter closed repeat_]; repeat split; reflexivity)|].
+  destruct (defrouter st) eqn:Ed; (cbn [fst set_loops hunt routers defrouter closed repeat_]; rewrite ?Ed; repeat split; reflexivity).
+Qed.
+Lemma send_frame c st i : let st' := fst (send c st i) in
+  hunt st' = hunt st /\ routers st' = routers st /\ defrouter st' = defrouter st /\ closed st' = closed st /\ repeat_ st' = repeat_ st.
+Proof.
+  unfold send. destruct (nth_error (loops st) i) as [l|]; [|(cbn [fst set_loops hunt routers defrouter closed repeat_]; repeat split; reflexivity)].
+  destruct (l_pending l); (cbn [fst set_loops hunt routers defrouter closed repeat_]; repeat split; reflexivity).
+Qed.
+
+Lemma pend_ok_routers st st' l : (forall k, rt_find (routers st) k <> None -> rt_find (routers st') k <> None) ->
+  pend_ok st l -> pend_ok st' l.
+Proof. unfold pend_ok. intros H Hp. eapply Forall_impl; [|exact Hp]. intros a Ha. apply H. exact Ha. Qed.
+
+Lemma step_inv c st e : inv st -> inv (fst (step c st e)).
+Proof.
+  intros Hinv. pose proof Hinv as [Hl Hd Hr Hk Hp]. destruct e as [a|a| |i order|i|src eth p hk|q]; cbn [step].
+  - unfold start_hunt.
+    destruct (is4 (a_ip a)) eqn:E4; [exact Hinv|].
+    destruct (is6 (a_ip a) && negb (is_llu (a_ip a))) eqn:E6; [exact Hinv|].
+    destruct (al_has (hunt st) (a_mac a)); [exact Hinv|].
+    constructor; cbn [fst loops routers defrouter]; auto.
+    + apply Forall_app; split; [assumption|]. constructor; [|constructor]. unfold dst_ok; cbn [l_dst].
+      destruct (ip_valid (a_ip a)) eqn:Ev; cbn [a_ip].
+      * unfold ip_valid in Ev. rewrite E4 in Ev. cbn [orb] in Ev. rewrite Ev in E6. cbn [andb] in E6.
+        apply negb_false_iff in E6. rewrite E6. reflexivity.
+      * vm_compute. reflexivity.
+    + apply Forall_app; split; [exact Hp|]. constructor; [|constructor]. unfold pend_ok. cbn [l_pending]. constructor.
+  - unfold stop_hunt. destruct (ip_valid (a_ip a) && negb (is_llu (a_ip a))); [exact Hinv|].
+    constructor; cbn [fst loops routers defrouter]; auto.
+  - unfold close. destruct (closed st); [exact Hinv|]. constructor; cbn [fst loops routers defrouter]; auto.
+  - unfold lookup. destruct (nth_error (loops st) i) as [l|] eqn:En; [|exact Hinv].
+    destruct (negb (l_alive l)); [exact Hinv|]. destruct (l_pending l); [|exact Hinv].
+    destruct (negb (al_has (hunt st) (a_mac (l_dst l))) || closed st).
+    + constructor; cbn [fst set_loops loops routers defrouter]; auto.
+      * apply kill_dst. assumption.
+      * apply Forall_kill; [intros d; unfold pend_ok; cbn [l_pending]; constructor|exact Hp].
+    + destruct (defrouter st) eqn:Ed; [|exact Hinv].
+      constructor; cbn [fst set_loops loops routers defrouter];
+        try exact (inv_def _ Hinv); try exact (inv_rt _ Hinv); auto.
+      * apply set_pending_dst. assumption.
+      * apply Forall_setp; [|exact Hp]. intros x _ _. unfold pend_ok. cbn [l_pending routers].
+        apply Forall_forall. intros ip Hip. apply pick_in in Hip. apply in_map_iff in Hip as [[k r] [Hkr Hin]].
+        rewrite Forall_forall in Hk. specialize (Hk _ Hin). cbn [fst snd] in *. subst ip. rewrite Hk.
+        eapply rt_find_in; eauto.
+  - unfold send. destruct (nth_error (loops st) i) as [l|] eqn:En; [|exact Hinv].
+    destruct (l_pending l) as [|ip rest] eqn:Ep; [exact Hinv|].
+    constructor; cbn [fst set_loops loops routers defrouter]; auto.
+    + apply set_pending_dst. assumption.
+    + assert (Hrest : Forall (fun ip => rt_find (routers st) ip <> None) rest).
+      { rewrite Forall_forall in Hp. specialize (Hp l (nth_error_In _ _ En)). unfold pend_ok in Hp. rewrite Ep in Hp.
+        inversion Hp; assumption. }
+      apply Forall_setp; [|exact Hp]. intros x _ _. unfold pend_ok. cbn [l_pending routers]. exact Hrest.
+  - unfold rx_ra. destruct (blen p <? 16); [exact Hinv|].
+    destruct (negb (Z.rem (repeat_ st + 1) 4 =? 0)%Z); [constructor; cbn [fst loops routers defrouter]; auto|].
+    destruct (negb hk); [constructor; cbn [fst loops routers defrouter]; auto|].
+    destruct (ra_options p) as [o|e| |]; try (constructor; cbn [fst loops routers defrouter]; auto; fail).
+    destruct (rt_find (routers st) src) as [r|] eqn:Ef; cbn [fst].
+    + constructor; cbn [loops routers defrouter]; auto.
+      * intros k Hk'. apply rt_find_set_other. auto.
+      * intros _. apply Hr. intros E. rewrite E in Ef. discriminate.
+      * assert (Hip : r_ip r = src) by (eapply rt_find_keys; eauto).
+        rewrite <- Hip at 1. rewrite <- (router_update_ip r p o). apply rt_set_keys; auto.
+      * eapply Forall_impl; [|exact Hp]. intros x Hx. eapply pend_ok_routers; [|exact Hx].
+        cbn [routers]. intros k Hk'. apply rt_find_set_other. exact Hk'.
+    + constructor; cbn [loops routers defrouter]; auto.
+      * intros k Hk'. inversion Hk'; subst. rewrite rt_find_set. discriminate.
+      * intros _. discriminate.
+      * apply (rt_set_keys (routers st) (router_update (router_new (if (List.length (o_slla o) =? 6)%nat then o_slla o else eth) src) p o)); auto.
+      * eapply Forall_impl; [|exact Hp]. intros x Hx. eapply pend_ok_routers; [|exact Hx].
+        cbn [routers]. intros k Hk'. apply rt_find_set_other. exact Hk'.
+  - exact Hinv.
+Qed.
+
+Lemma reach_inv c s0 st : inv s0 -> reach c s0 st -> inv st.
+Proof. intros H0 Hr. induction Hr; auto. apply step_inv. assumption. Qed.
+
+(* ---------------------------------------------------------------- *)
+(* C14_confined, one step.  A frame leaves only in a Send step, for the head of the loop's list: *)
+
+(* what holds of every emitted advertisement AT EMISSION *)
+Definition forged_shape (c : config) (st : state) (n : na) : Prop :=
+  defrouter st <> None /\
+  (exists k r, rt_find (routers st) k = Some r /\ na_target n = k) /\
+  na_ip_src n = na_target n /\ na_tlla n = host_mac c /\ na_eth_src n = host_mac c /\
+  na_override n = true /\ na_solicited n = false /\ na_router n = false /\ na_hop n = 255.
+
+(* what holds when the frame is DECIDED (Lookup, under the lock) *)
+Definition decided_ok (st : state) (mac : bytes) : Prop :=
+  al_has (hunt st) mac = true /\ closed st = false /\ defrouter st <> None.
+
+Lemma step_sent c st e l : inv st -> snd (step c st e) = ONAs l ->
+  exists i lp ip rest, e = Send i /\ nth_error (loops st) i = Some lp /\ l_pending lp = ip :: rest /\
+    l = [forge c (l_dst lp) ip] /\ forged_shape c st (forge c (l_dst lp) ip).
+Proof.
+  intros Hinv Hs. destruct e as [a|a| |i order|i|src eth p hk|q]; cbn [step] in Hs.
+  - unfold start_hunt in Hs. destruct (is4 _); [discriminate|]. destruct (is6 _ && _); [discriminate|].
+    destruct (al_has _ _); discriminate.
+  - unfold stop_hunt in Hs. destruct (_ && _); discriminate.
   - unfold close in Hs. destruct (closed st); discriminate.
-  - unfold wake in Hs. destruct (nth_error (loops st) i) as [lp|] eqn:En; [|discriminate].
-    destruct (negb (l_alive lp)); [discriminate|].
-    destruct (negb (al_has (hunt st) (a_mac (l_dst lp))) || closed st) eqn:Eh.
-    + simpl in Hs. inversion Hs; subst. contradiction.
-    + apply orb_false_iff in Eh as [Eh Ec]. apply negb_false_iff in Eh.
-      destruct (defrouter st) as [k|] eqn:Ed; simpl in Hs; inversion Hs; subst; [|contradiction].
-      apply in_map_iff in Hn as [[k0 r0] [<- Hin]]. simpl.
-      assert (Hdst : dst_ok (l_dst lp)).
-      { pose proof (inv_loops _ Hinv) as Hl. rewrite Forall_forall in Hl. apply Hl.
-        eapply nth_error_In; eauto. }
-      pose proof (inv_keys _ Hinv) as Hk. rewrite Forall_forall in Hk.
-      specialize (Hk _ Hin). simpl in Hk.
-      unfold forged_ok, forge; simpl. repeat split; auto; try congruence.
-      * destruct (rt_find (routers st) k0) as [r1|] eqn:Ef.
-        -- exists k0, r1. split; auto.
-        -- exfalso. eapply rt_find_in; eauto.
-      * unfold dst_ok in Hdst. rewrite Hdst. reflexivity.
+  - unfold lookup in Hs. destruct (nth_error (loops st) i) as [lp|]; [|discriminate].
+    destruct (negb (l_alive lp)); [discriminate|]. destruct (l_pending lp); [|discriminate].
+    destruct (negb _ || closed st); [discriminate|]. destruct (defrouter st); discriminate.
+  - unfold send in Hs. destruct (nth_error (loops st) i) as [lp|] eqn:En; [|discriminate].
+    destruct (l_pending lp) as [|ip rest] eqn:Ep; [discriminate|]. cbn [snd] in Hs. inversion Hs; subst l.
+    exists i, lp, ip, rest. repeat split; auto.
+    + assert (Hr : routers st <> []).
+      { pose proof (inv_pend _ Hinv) as Hp. rewrite Forall_forall in Hp. specialize (Hp lp (nth_error_In _ _ En)).
+        unfold pend_ok in Hp. rewrite Ep in Hp. inversion Hp; subst. intros E. rewrite E in *. cbn in *. congruence. }
+      apply (inv_rt _ Hinv Hr).
+    + pose proof (inv_pend _ Hinv) as Hp. rewrite Forall_forall in Hp. specialize (Hp lp (nth_error_In _ _ En)).
+      unfold pend_ok in Hp. rewrite Ep in Hp. inversion Hp as [|? ? Hip _]; subst.
+      destruct (rt_find (routers st) ip) as [r|] eqn:Ef; [|congruence]. exists ip, r. split; [exact Ef|reflexivity].
+    + pose proof (inv_loops _ Hinv) as Hl. rewrite Forall_forall in Hl. specialize (Hl lp (nth_error_In _ _ En)).
+      unfold dst_ok in Hl. unfold forge. cbn [na_hop]. rewrite Hl. reflexivity.
   - unfold rx_ra in Hs.
     repeat match type of Hs with
     | snd (if ?b then _ else _) = _ => destruct b; simpl in Hs; try discriminate
@@ -206,13 +296,27 @@ Proof.
   - discriminate Hs.
 Qed.
 
+(* a Lookup puts frames on a loop's list only for a MAC that is hunted, while the handler is open
+   and a router is known; and only Lookup ever adds to a list *)
+Lemma lookup_decides st i order k : snd (lookup st i order) = OLook true (S k) ->
+  exists lp, nth_error (loops st) i = Some lp /\ l_pending lp = [] /\ decided_ok st (a_mac (l_dst lp)).
+Proof.
+  unfold lookup. intros H. destruct (nth_error (loops st) i) as [lp|]; [|discriminate H].
+  destruct (negb (l_alive lp)); [discriminate H|]. destruct (l_pending lp) eqn:Ep; [|discriminate H].
+  destruct (negb (al_has (hunt st) (a_mac (l_dst lp))) || closed st) eqn:Eh; [discriminate H|].
+  apply orb_false_iff in Eh as [Eh Ec]. apply negb_false_iff in Eh.
+  destruct (defrouter st) eqn:Ed; [|discriminate H]. exists lp. repeat split; auto; congruence.
+Qed.
+
 (* over every history from the initial state *)
 Theorem confined_run c rep evs st e l :
-  In (st, e, ONAs l) (fst (run c (init rep) evs)) -> forall n, In n l -> forged_ok c st n.
+  In (st, e, ONAs l) (fst (run c (init rep) evs)) ->
+  exists i lp ip rest, e = Send i /\ nth_error (loops st) i = Some lp /\ l_pending lp = ip :: rest /\
+    l = [forge c (l_dst lp) ip] /\ forged_shape c st (forge c (l_dst lp) ip).
 Proof.
-  intros Hin n Hn.
+  intros Hin.
   pose proof (run_entries c (init rep) evs (init rep) (reach0 _ _) _ Hin) as [Hr Hs].
-  eapply step_confined; eauto. eapply reach_inv; eauto. apply inv_init.
+  eapply step_sent; eauto. eapply reach_inv; eauto. apply inv_init.
 Qed.
 
 (* non-vacuity: a history in which a forged advertisement is emitted *)
@@ -221,15 +325,16 @@ Definition ex_src : bytes := [254;128;0;0;0;0;0;0;0;0;0;0;0;1;0;17].
 Definition ex_ra : bytes := [134;0;0;0;64;192;7;8;0;0;0;1;0;0;0;2;1;1;170;187;204;221;238;255].
 Definition ex_cfg : config := mkCfg [0;85;85;85;85;85] [254;128;0;0;0;0;0;0;0;0;0;0;0;1;1;41].
 Definition ex_hist : list event :=
-  [StartHunt (mkAddr ex_mac []); Wake 0; RxRA ex_src [0;102;102;102;102;102] ex_ra true; Wake 0].
+  [StartHunt (mkAddr ex_mac []); Lookup 0 [0%nat]; RxRA ex_src [0;102;102;102;102;102] ex_ra true; Lookup 0 [0%nat]; Send 0].
 
 Example confined_nonvacuous :
   exists st e n, In (st, e, ONAs [n]) (fst (run ex_cfg (init (-1)) ex_hist)) /\ na_eth_dst n = ex_mac.
 Proof.
   eexists. eexists. eexists. split.
-  - vm_compute. right. right. right. left. reflexivity.
+  - vm_compute. right. right. right. right. left. reflexivity.
   - reflexivity.
 Qed.
+
 
 (* ---------------------------------------------------------------- *)
 (* C14_router_exact *)
@@ -477,7 +582,7 @@ Qed.
 
 Lemma step_uniq c st e : uniq (hunt st) -> uniq (hunt (fst (step c st e))).
 Proof.
-  intros H. destruct e as [a|a| |i|src eth p hk|q]; cbn [step].
+  intros H. destruct e as [a|a| |i order|i|src eth p hk|q]; cbn [step].
   - unfold start_hunt. destruct (is4 (a_ip a)); [exact H|].
     destruct (is6 (a_ip a) && negb (is_llu (a_ip a))); [exact H|].
     destruct (al_has (hunt st) (a_mac a)) eqn:E; [exact H|]. cbn [fst hunt]. unfold al_add. rewrite E.
@@ -485,10 +590,8 @@ Proof.
   - unfold stop_hunt. destruct (ip_valid (a_ip a) && negb (is_llu (a_ip a))); [exact H|].
     cbn [fst hunt]. apply uniq_del. exact H.
   - unfold close. destruct (closed st); exact H.
-  - unfold wake. destruct (nth_error (loops st) i) as [l|]; [|exact H].
-    destruct (negb (l_alive l)); [exact H|].
-    destruct (negb (al_has (hunt st) (a_mac (l_dst l))) || closed st); [exact H|].
-    destruct (defrouter st); exact H.
+  - destruct (lookup_frame st i order) as [Fh [Fr [Fd [Fc Fp]]]]. rewrite ?Fh, ?Fr, ?Fd, ?Fc. exact H.
+  - destruct (send_frame c st i) as [Fh [Fr [Fd [Fc Fp]]]]. rewrite ?Fh, ?Fr, ?Fd, ?Fc. exact H.
   - unfold rx_ra. destruct (blen p <? 16); [exact H|].
     destruct (negb (Z.rem (repeat_ st + 1) 4 =? 0)%Z); [exact H|].
     destruct (negb hk); [exact H|].
@@ -521,7 +624,7 @@ Lemma step_keeps_unhunted c st e mac :
   al_has (hunt st) mac = false -> (forall a, e = StartHunt a -> bytes_eqb (a_mac a) mac = false) ->
   al_has (hunt (fst (step c st e))) mac = false.
 Proof.
-  intros H Hs. destruct e as [a|a| |i|src eth p hk|q]; cbn [step].
+  intros H Hs. destruct e as [a|a| |i order|i|src eth p hk|q]; cbn [step].
   - unfold start_hunt. destruct (is4 (a_ip a)); [exact H|].
     destruct (is6 (a_ip a) && negb (is_llu (a_ip a))); [exact H|].
     destruct (al_has (hunt st) (a_mac a)) eqn:E; [exact H|]. cbn [fst hunt]. unfold al_add. rewrite E.
@@ -529,128 +632,33 @@ Proof.
   - unfold stop_hunt. destruct (ip_valid (a_ip a) && negb (is_llu (a_ip a))); [exact H|].
     cbn [fst hunt]. apply al_has_del_other. exact H.
   - unfold close. destruct (closed st); exact H.
-  - unfold wake. destruct (nth_error (loops st) i) as [l|]; [|exact H].
-    destruct (negb (l_alive l)); [exact H|].
-    destruct (negb (al_has (hunt st) (a_mac (l_dst l))) || closed st); [exact H|].
-    destruct (defrouter st); exact H.
+  - destruct (lookup_frame st i order) as [Fh [Fr [Fd [Fc Fp]]]]. rewrite ?Fh, ?Fr, ?Fd, ?Fc. exact H.
+  - destruct (send_frame c st i) as [Fh [Fr [Fd [Fc Fp]]]]. rewrite ?Fh, ?Fr, ?Fd, ?Fc. exact H.
   - unfold rx_ra. destruct (blen p <? 16); [exact H|].
     destruct (negb (Z.rem (repeat_ st + 1) 4 =? 0)%Z); [exact H|].
     destruct (negb hk); [exact H|].
     destruct (ra_options p); try exact H.
     destruct (rt_find (routers st) src); exact H.
   - exact H.
-Qed.
-
-Lemma run_unhunted c mac : forall evs st, inv st ->
-  al_has (hunt st) mac = false -> no_start mac evs ->
-  forall s e l, In (s, e, ONAs l) (fst (run c st evs)) -> forall n, In n l -> bytes_eqb (na_eth_dst n) mac = false.
-Proof.
-  induction evs as [|e r IH]; intros st Hinv Hn Hs s e0 l Hin n Hnl; cbn [run] in Hin; [contradiction|].
-  destruct (step c st e) as [st' o] eqn:Hstep. destruct (run c st' r) as [tr fin] eqn:Hrun.
-  cbn [fst] in Hin. destruct Hin as [Heq|Hin].
-  - inversion Heq; subst s e0 o. clear Heq.
-    assert (Hf : forged_ok c st n).
-    { eapply step_confined; eauto. rewrite Hstep. reflexivity. }
-    destruct Hf as [Hh _]. destruct (bytes_eqb (na_eth_dst n) mac) eqn:E; [|reflexivity].
-    apply bytes_eqb_eq in E. subst mac. congruence.
-  - assert (H1 : inv st').
-    { replace st' with (fst (step c st e)) by (rewrite Hstep; reflexivity). apply step_inv. exact Hinv. }
-    assert (H2 : al_has (hunt st') mac = false).
-    { replace st' with (fst (step c st e)) by (rewrite Hstep; reflexivity).
-      apply step_keeps_unhunted; [exact Hn|]. intros a ->. apply Hs. left. reflexivity. }
-    assert (H3 : no_start mac r) by (intros a Ha; apply Hs; right; exact Ha).
-    apply (IH st' H1 H2 H3 s e0 l); [rewrite Hrun; exact Hin|exact Hnl].
-Qed.
-
-(* C14_stop, StopHunt part: after an effective StopHunt of a (any history before it), no forged
-   advertisement goes to a's MAC in any continuation that does not hunt that MAC again *)
-Theorem stop_no_more c rep evs1 a evs2 :
-  stop_effective a -> no_start (a_mac a) evs2 ->
-  let st := snd (run c (init rep) evs1) in
-  let st1 := fst (step c st (StopHunt a)) in
-  forall s e l, In (s, e, ONAs l) (fst (run c st1 evs2)) -> forall n, In n l -> bytes_eqb (na_eth_dst n) (a_mac a) = false.
-Proof.
-  intros He Hs st st1.
-  assert (Hr : reach c (init rep) st) by (apply run_final_reach; constructor).
-  assert (Hinv : inv st) by (eapply reach_inv; eauto; apply inv_init).
-  assert (Hu : uniq (hunt st)) by (eapply reach_uniq; eauto; exact I).
-  assert (H1 : inv st1) by (apply step_inv; exact Hinv).
-  assert (H2 : al_has (hunt st1) (a_mac a) = false) by (apply stop_unhunts; assumption).
-  intros s e l Hin n Hn. exact (run_unhunted c (a_mac a) evs2 st1 H1 H2 Hs s e l Hin n Hn).
 Qed.
 
 (* C14_stop, Close part: once closed, no loop pass emits anything, whatever happens afterwards *)
 Lemma step_closed c st e : closed st = true -> closed (fst (step c st e)) = true.
 Proof.
-  intros H. destruct e as [a|a| |i|src eth p hk|q]; cbn [step].
+  intros H. destruct e as [a|a| |i order|i|src eth p hk|q]; cbn [step].
   - unfold start_hunt. destruct (is4 (a_ip a)); [exact H|].
     destruct (is6 (a_ip a) && negb (is_llu (a_ip a))); [exact H|].
     destruct (al_has (hunt st) (a_mac a)); exact H.
   - unfold stop_hunt. destruct (ip_valid (a_ip a) && negb (is_llu (a_ip a))); exact H.
   - unfold close. rewrite H. exact H.
-  - unfold wake. destruct (nth_error (loops st) i) as [l|]; [|exact H].
-    destruct (negb (l_alive l)); [exact H|].
-    destruct (negb (al_has (hunt st) (a_mac (l_dst l))) || closed st); [exact H|].
-    destruct (defrouter st); exact H.
+  - destruct (lookup_frame st i order) as [Fh [Fr [Fd [Fc Fp]]]]. rewrite ?Fh, ?Fr, ?Fd, ?Fc. exact H.
+  - destruct (send_frame c st i) as [Fh [Fr [Fd [Fc Fp]]]]. rewrite ?Fh, ?Fr, ?Fd, ?Fc. exact H.
   - unfold rx_ra. destruct (blen p <? 16); [exact H|].
     destruct (negb (Z.rem (repeat_ st + 1) 4 =? 0)%Z); [exact H|].
     destruct (negb hk); [exact H|].
     destruct (ra_options p); try exact H.
     destruct (rt_find (routers st) src); exact H.
   - exact H.
-Qed.
-
-Lemma run_closed c : forall evs st, inv st -> closed st = true ->
-  forall s e l, In (s, e, ONAs l) (fst (run c st evs)) -> l = [].
-Proof.
-  induction evs as [|e r IH]; intros st Hinv Hc s e0 l Hin; cbn [run] in Hin; [contradiction|].
-  destruct (step c st e) as [st' o] eqn:Hstep. destruct (run c st' r) as [tr fin] eqn:Hrun.
-  cbn [fst] in Hin. destruct Hin as [Heq|Hin].
-  - inversion Heq; subst s e0 o. clear Heq. destruct l as [|n l']; [reflexivity|]. exfalso.
-    assert (Hf : forged_ok c st n).
-    { eapply step_confined; eauto; [rewrite Hstep; reflexivity|left; reflexivity]. }
-    destruct Hf as [_ [Hcl _]]. congruence.
-  - assert (H1 : inv st').
-    { replace st' with (fst (step c st e)) by (rewrite Hstep; reflexivity). apply step_inv. exact Hinv. }
-    assert (H2 : closed st' = true).
-    { replace st' with (fst (step c st e)) by (rewrite Hstep; reflexivity). apply step_closed. exact Hc. }
-    apply (IH st' H1 H2 s e0 l). rewrite Hrun. exact Hin.
-Qed.
-
-Theorem close_no_more c rep evs1 evs2 :
-  let st := snd (run c (init rep) evs1) in
-  let st1 := fst (step c st Close) in
-  forall s e l, In (s, e, ONAs l) (fst (run c st1 evs2)) -> l = [].
-Proof.
-  intros st st1.
-  assert (Hr : reach c (init rep) st) by (apply run_final_reach; constructor).
-  assert (Hinv : inv st) by (eapply reach_inv; eauto; apply inv_init).
-  assert (H1 : inv st1) by (apply step_inv; exact Hinv).
-  assert (H2 : closed st1 = true).
-  { unfold st1. cbn [step]. unfold close. destruct (closed st) eqn:E; [exact E|reflexivity]. }
-  intros s e l Hin. exact (run_closed c evs2 st1 H1 H2 s e l Hin).
-Qed.
-
-(* a loop whose MAC is no longer hunted (or a closed handler) dies at its next pass and never emits again *)
-Theorem wake_dead_stays_dead c st i l :
-  nth_error (loops st) i = Some l -> l_alive l = false -> step c st (Wake i) = (st, ONone).
-Proof. intros H Ha. cbn [step]. unfold wake. rewrite H, Ha. reflexivity. Qed.
-
-(* non-vacuity of stop_no_more: hunted, poisoned, stopped, woken again: nothing *)
-Definition ex_hist_stop1 : list event :=
-  [RxRA ex_src [0;102;102;102;102;102] ex_ra true; StartHunt (mkAddr ex_mac []); Wake 0].
-Definition ex_hist_stop2 : list event :=
-  [Wake 0; RxRA ex_src [0;102;102;102;102;102] ex_ra true; Wake 0].
-Example stop_nonvacuous :
-  stop_effective (mkAddr ex_mac []) /\ no_start ex_mac ex_hist_stop2 /\
-  (exists s e n, In (s, e, ONAs [n]) (fst (run ex_cfg (init 3) ex_hist_stop1)) /\ na_eth_dst n = ex_mac) /\
-  (exists s e, In (s, e, ONAs []) (fst (run ex_cfg (fst (step ex_cfg (snd (run ex_cfg (init 3) ex_hist_stop1)) (StopHunt (mkAddr ex_mac [])))) ex_hist_stop2))).
-Proof.
-  split; [left; reflexivity|]. split.
-  - intros a Ha. cbn in Ha. repeat (destruct Ha as [Ha|Ha]; [discriminate|]). contradiction.
-  - split.
-    + eexists. eexists. eexists. split; [vm_compute; right; right; left; reflexivity|reflexivity].
-    + eexists. eexists. vm_compute. left. reflexivity.
 Qed.
 
 (* ---------------------------------------------------------------- *)
@@ -673,16 +681,14 @@ Definition not_ra_from (k : bytes) (e : event) : Prop :=
 Lemma step_keeps_router c st e k : not_ra_from k e ->
   rt_find (routers (fst (step c st e))) k = rt_find (routers st) k.
 Proof.
-  intros H. destruct e as [a|a| |i|src eth p hk|q]; cbn [step].
+  intros H. destruct e as [a|a| |i order|i|src eth p hk|q]; cbn [step].
   - unfold start_hunt. destruct (is4 (a_ip a)); [reflexivity|].
     destruct (is6 (a_ip a) && negb (is_llu (a_ip a))); [reflexivity|].
     destruct (al_has (hunt st) (a_mac a)); reflexivity.
   - unfold stop_hunt. destruct (ip_valid (a_ip a) && negb (is_llu (a_ip a))); reflexivity.
   - unfold close. destruct (closed st); reflexivity.
-  - unfold wake. destruct (nth_error (loops st) i) as [l|]; [|reflexivity].
-    destruct (negb (l_alive l)); [reflexivity|].
-    destruct (negb (al_has (hunt st) (a_mac (l_dst l))) || closed st); [reflexivity|].
-    destruct (defrouter st); reflexivity.
+  - destruct (lookup_frame st i order) as [Fh [Fr [Fd [Fc Fp]]]]. rewrite Fr. reflexivity.
+  - destruct (send_frame c st i) as [Fh [Fr [Fd [Fc Fp]]]]. rewrite Fr. reflexivity.
   - cbn [not_ra_from] in H. unfold rx_ra. destruct (blen p <? 16); [reflexivity|].
     destruct (negb (Z.rem (repeat_ st + 1) 4 =? 0)%Z); [reflexivity|].
     destruct (negb hk); [reflexivity|].
@@ -722,7 +728,7 @@ Qed.
 
 Example router_persistent_nonvacuous :
   Forall (not_ra_from ex_src)
-    [StartHunt (mkAddr ex_mac []); Wake 0; RxRA [254;128;0;0;0;0;0;0;0;0;0;0;0;1;0;18] [0;119;119;119;119;119] wit_rdnss true;
+    [StartHunt (mkAddr ex_mac []); Lookup 0 [0%nat]; Send 0; RxRA [254;128;0;0;0;0;0;0;0;0;0;0;0;1;0;18] [0;119;119;119;119;119] wit_rdnss true;
      RxOther [128;0;0;0]; StopHunt (mkAddr ex_mac []); Close].
 Proof. repeat constructor. Qed.
 
